@@ -52,6 +52,7 @@ structure Book where
   lastIdlePoll : Option Nat := none        -- time of the last non-stalled channel poll that went idle (Pending / end)
   idleNow   : Bool := false                -- … and that poll is the current op
   lastCounts : Nat := 0                    -- in-flight count reported at the end of the previous channel poll
+  abandonOrder : List Nat := []            -- executions the application dropped, in order
 deriving Repr
 
 def Book.exec (b : Book) (r : Nat) : Option BExec := b.execs.find? (·.rid == r)
@@ -69,9 +70,29 @@ def Book.sweep (b : Book) : Book :=
       | some e => !(e.tick ≤ b.now) && !e.abandoned
       | none => true }
 
+/-- Each iteration of the channel's poll loop processes one queued guard cancellation and one due
+expiration before it reads the transport: what is *certainly* gone when a read is observed. -/
+def Book.sweepOne (b : Book) : Book :=
+  -- the head of the guard-cancellation queue (its entry may already be gone)
+  let b := match b.abandonOrder with
+    | r :: rest => { b with table := b.table.filter (·.2 != r), abandonOrder := rest }
+    | [] => b
+  -- the due entry with the smallest tick, if unique
+  let due := b.table.filterMap fun (_, r) => match b.exec r with
+    | some e => if e.tick ≤ b.now then some (e.tick, r) else none
+    | none => none
+  match due with
+  | [] => b
+  | d :: ds =>
+      let m := ds.foldl (fun acc x => if x.1 < acc.1 then x else acc) d
+      if (due.filter (·.1 == m.1)).length == 1 then { b with table := b.table.filter (·.2 != m.2) } else b
+
 def Book.endOp (b : Book) : Book :=
   let b := match b.curDropExec with
-    | some r => b.updExec r (fun e => if e.gone then e else { e with gone := true, abandoned := true })
+    | some r =>
+        let fresh := match b.exec r with | some e => !e.gone | none => false
+        let b := b.updExec r (fun e => if e.gone then e else { e with gone := true, abandoned := true })
+        if fresh then { b with abandonOrder := b.abandonOrder ++ [r] } else b
     | none => b
   { b with curDropExec := none, topPoll := false, stalled := false, sawT := false, prevReadyP := false, lastRead := none, justRead := none, idleNow := false }
 
@@ -98,6 +119,7 @@ def Book.step (b : Book) : SEv → Book
       | .tFlush _ r => { (if r == .err then { b with failed := true } else b) with sawT := true, prevReadyP := false }
       | .tNext _ r =>
           let b := { b with sawT := true, prevReadyP := false }
+          let b := if b.topPoll then b.sweepOne else b
           match r with
           | .item (.request id d tr body) =>
               { b with reqReads := b.reqReads ++ [(id, d, tr, body)], lastRead := some id, justRead := some id }
@@ -129,7 +151,7 @@ def Book.step (b : Book) : SEv → Book
             | _ => b
           -- a non-stalled poll that goes idle has drained every queued cancellation and due expiration
           if b.topPoll && !b.stalled && !b.failed && (r == .pending || r == .readyNone) then
-            { b.sweep with lastIdlePoll := some b.now, idleNow := true }
+            { b.sweep with lastIdlePoll := some b.now, idleNow := true, abandonOrder := [] }
           else b
       | .counts (.server _) n _ => { b with lastCounts := n }
       | .spin _ => { b with spun := true }
